@@ -133,9 +133,12 @@ def exercise(sh, facade, kind, combo, block_kind, keyp):
     # device list and lookup
     try:
         keys = facade.devices
-        for k in list(keys) + ["NO-SUCH-KEY"]:
-            facade.get_device(k)
+        # unknown keys of any kind a caller may hold (a keypad number, nothing, bytes off the wire)
+        for k in list(keys) + ["NO-SUCH-KEY", "", None, 0, 1.5, b"P1", ("P1",)]:
+            got = facade.get_device(k)
             sh.count("member_evaluations")
+            if k not in keys and got is not None:
+                sh.violation(f"{keyp}:facade.get_device:unknown-key", f"{kind} facade: get_device({k!r}) returned {got!r} for a key that names no device", {"combo": combo, "key": repr(k)})
     except Exception as e:
         d = describe_exc(e)
         sh.violation(f"{keyp}:facade.get_device", f"{kind} facade on {combo}: devices/get_device raised {d['type']}: {d['msg']}", {"combo": combo, "exc": d})
@@ -306,7 +309,7 @@ def main(tier, seed):
     run.extra["combinations"] = len(combos)
     run.extra["distinct_members_evaluated"] = len(run.sets.get("member_names", set()))
     return run.finish(
-        rule="all platform x config x log combinations shipped (895) x blocks {all-zero, all-ones, random, shipped snapshots of the platform, mutated snapshots, every enum at its first unlabelled value and one above, output wirings over all labels} x both facades (async on a real GeckoAsyncSpa object, threaded through its real _on_connected path): construction, then every public property / __str__ / __repr__ / monitor of the facade and of every object it exposes (by reflection), devices and get_device for every key and an unknown key; all watercare bytes 0..255 and 400 reminder lists through the renderings; one evaluation = one facade construction (or one watercare byte / reminder list); distinct = combinations",
+        rule="all platform x config x log combinations shipped (895) x blocks {all-zero, all-ones, random, shipped snapshots of the platform, mutated snapshots, every enum at its first unlabelled value and one above, output wirings over all labels} x both facades (async on a real GeckoAsyncSpa object, threaded through its real _on_connected path): construction, then every public property / __str__ / __repr__ / monitor of the facade and of every object it exposes (by reflection), devices and get_device for every key and unknown keys (string, empty, None, numbers, bytes, tuple); all watercare bytes 0..255 and 400 reminder lists through the renderings; one evaluation = one facade construction (or one watercare byte / reminder list); distinct = combinations",
         assumptions=["members are enumerated by reflection over the classes' properties; methods with side effects are not called", "a combination whose facade cannot be built is reported once per (facade kind, platform, log version)"],
     )
 
